@@ -12,6 +12,7 @@ CONSTANTS
   Sizes = {1}
   Stray = FALSE
   BVals = {2}
+  BSVs = {1, 2}
 VIEW View
 INVARIANTS TypeOK C16_PassExact
 PROPERTIES C16_SourceVersionForward C16_CursorsForward C16_RecreateOnlyNewer C16_OlderSourceRefused C16_AckForward C16_FailedUnchanged
